@@ -528,6 +528,9 @@ fn fs_free_check(ft: FatType, variant: u8, truncate: bool, c: u32) {
     assert!(after == free_before + expect_freed);
     let info2 = fs.fs_info.borrow();
     assert!(info2.free_cluster_count == if has_count { Some(after) } else { None });
+    // C05: a changed cached count is latched for write-back, so that the FS-info sector written at unmount carries it
+    // (a session that only frees clusters must still persist the new count)
+    if has_count && expect_freed > 0 { assert!(info2.dirty); }
     // only the status byte is written outside the tables
     assert!(d.nw <= 1);
     if d.nw == 1 { assert!(d.w_len[0] == 1 && (d.w_off[0] == 0x25 || d.w_off[0] == 0x41)); }
@@ -744,6 +747,9 @@ fn fault_fs_check(ft: FatType, op: u8) {
     assert!(!d.inner.oob);
     // the fault surfaces as the I/O variant carrying the device's error; without a fault the call succeeds
     if d.fired { assert!(fault); } else { assert!(ok); }
+    // C12: the cached "last status byte written" follows the device: a status update that failed is not remembered as
+    // done (otherwise every later update would be skipped and the volume would stay clean on disk while being modified)
+    if op == 7 && d.fired { assert!(fs.current_status_flags.get() == cur); }
     kani::cover!(d.fired && fault_at >= 1);
     kani::cover!(!d.fired);
 }
@@ -776,4 +782,76 @@ fn twin_fault_fs_alloc_always_ok() {
     let (g, dev) = fault_dev(FatType::Fat16, 0, fault_at);
     let fs = core::mem::ManuallyDrop::new(mk_fs(dev, &g, crate::time::NullTimeProvider::new(), false, FsInfoSector::default(), FsStatusFlags::decode(0)));
     assert!(fs.alloc_cluster(None, false).is_ok());
+}
+
+// ------------------------------------------------------------------------------------------- mount options (C13, C18)
+
+/// C13/C18: the option builders set exactly the option they name, in any order: access-date updating is OFF unless
+/// requested (the default a read-only session relies on), `strict` does not touch it and vice versa, and swapping the
+/// clock or the code-page converter keeps both.
+#[kani::proof]
+fn fs_options_builders() {
+    let d = FsOptions::new();
+    assert!(!d.update_accessed_date && d.strict);
+    let s: bool = kani::any();
+    let u: bool = kani::any();
+    let a = FsOptions::new().strict(s);
+    assert!(a.strict == s && !a.update_accessed_date);
+    let b = FsOptions::new().update_accessed_date(u).strict(s);
+    assert!(b.strict == s && b.update_accessed_date == u);
+    let c = FsOptions::new().strict(s).update_accessed_date(u);
+    assert!(c.strict == s && c.update_accessed_date == u);
+    let e = FsOptions::new().strict(s).update_accessed_date(u).time_provider(crate::time::NullTimeProvider::new())
+        .oem_cp_converter(LossyOemCpConverter::new());
+    assert!(e.strict == s && e.update_accessed_date == u);
+}
+
+// ------------------------------------------------------------------------------------------- format_volume I/O (C06, C11)
+
+/// C06/C11: `format_volume` on a 373-sector device (FAT12, 338 clusters, two FAT copies; the size is chosen so that the
+/// table has a single padding entry - the padding loop is input-proportional and decided by `format_fat*`) that is full of stale garbage: EVERY byte of
+/// the metadata area - boot sector, both FAT copies, the whole root directory region - is written (one arbitrary
+/// watched address tracks it), nothing is written at or behind the first data sector's end of the volume, and the
+/// watched byte ends up with the value the specification prescribes where that is fixed: zero anywhere in the root
+/// directory, zero in the free part of either FAT copy, the media/end-of-chain pattern in the first three FAT bytes,
+/// 0x55 0xAA at the end of the boot sector.
+#[kani::proof]
+#[kani::unwind(520)]
+fn format_volume_regions12() {
+    let total_sectors: u32 = 373;
+    let mut dev = LogDev::new(u64::from(total_sectors) * 512);
+    // geometry of the default layout for 64 sectors (checked below against what was actually formatted)
+    let (reserved, spf, fats, root_sectors) = (1u64, 1u64, 2u64, 32u64);
+    let meta_end = (reserved + fats * spf + root_sectors) * 512;
+    let w: u64 = kani::any();
+    kani::assume(w < meta_end);
+    dev.watch_addr = w;
+    dev.watch_val = 0xD1;
+    let r = format_volume(&mut dev, FormatVolumeOptions::new().total_sectors(total_sectors));
+    assert!(r.is_ok());
+    assert!(dev.watch_hit);                                   // no stale byte survives in the metadata area
+    assert!(dev.max_end <= u64::from(total_sectors) * 512);   // nothing behind the volume
+    let fat0 = reserved * 512;
+    let root = (reserved + fats * spf) * 512;
+    if w >= root { assert!(dev.watch_val == 0); }
+    if w >= fat0 && w < root {
+        let o = (w - fat0) % (spf * 512);
+        if o == 0 { assert!(dev.watch_val == 0xF8); }
+        if o == 1 || o == 2 { assert!(dev.watch_val == 0xFF); }
+        if o >= 3 && o < 40 { assert!(dev.watch_val == 0); }   // entries 2..26 of a volume with > 26 clusters: free
+    }
+    if w == 510 { assert!(dev.watch_val == 0x55); }
+    if w == 511 { assert!(dev.watch_val == 0xAA); }
+    if w == 11 { assert!(dev.watch_val == 0x00); }             // bytes per sector = 512 (little endian)
+    if w == 12 { assert!(dev.watch_val == 0x02); }
+    if w == 14 { assert!(dev.watch_val == reserved as u8); }
+    if w == 16 { assert!(dev.watch_val == fats as u8); }
+    if w == 22 { assert!(dev.watch_val == spf as u8); }
+    if w == 17 { assert!(dev.watch_val == 0x00); }             // 512 root entries = 0x0200
+    if w == 18 { assert!(dev.watch_val == 0x02); }
+    if w == 13 { assert!(dev.watch_val == 1); }                // one sector per cluster
+    if w == 19 { assert!(dev.watch_val == (total_sectors & 0xFF) as u8); }
+    if w == 20 { assert!(dev.watch_val == (total_sectors >> 8) as u8); }
+    kani::cover!(w >= fat0 + 512 + 100 && w < root);           // inside the second FAT copy
+    kani::cover!(w >= root + 8000);
 }
